@@ -77,8 +77,11 @@ func sampleOfType(t int, k int) *refwire.Item {
 		return &refwire.Item{Tag: tagV, Type: 8, Raw: []byte{1, 2, 3, 4, 5}}
 	case 9:
 		return &refwire.Item{Tag: tagV, Type: 9, Raw: append(u32(0), u32(1700000000)...)}
-	default:
+	case 10:
 		return &refwire.Item{Tag: tagV, Type: 10, Raw: u32(3600)}
+	default:
+		// a type the library does not know, 8 bytes of value
+		return &refwire.Item{Tag: tagV, Type: t, Raw: []byte{0, 6, 0x3d, 0x2a, 0x1b, 0x3c, 0x4d, 0x5e}}
 	}
 }
 
@@ -488,6 +491,14 @@ func TestDispatch(t *testing.T) {
 				payload := structItem(kmip.TagResponsePayload, textItem(kmip.TagUniqueIdentifier, "id"), attr)
 				bin := message(2, structItem(kmip.TagBatchItem, enumItem(kmip.TagOperation, uint32(kmip.OperationGetAttributes)), enumItem(kmip.TagResultStatus, 0), payload))
 				msg, re, err := viaEncoding(c.Enc, bin, 2)
+				if c.Expect == "opaque-or-error" {
+					if err == nil && !bytes.Equal(re, bin) {
+						probs = append(probs, fmt.Sprintf("unknown-item-type-accepted-but-not-preserved:type%d", c.Code))
+					} else if err != nil && strings.HasPrefix(err.Error(), "panic") {
+						probs = append(probs, "panic:"+err.Error())
+					}
+					continue
+				}
 				if err != nil {
 					probs = append(probs, fmt.Sprintf("decode-error:%q:%v", name, err))
 					continue
